@@ -212,10 +212,10 @@ class Tracebacks(Part):
     chunk = 60
 
     def strategy(self, tier):
-        return st.builds(lambda lead, filler, depth, pos, nl, tabs, wide, wrap, pb, rec, enc, rel: {"lead": lead, "filler": filler, "depth": depth, "pos": pos, "final_newline": nl, "tabs": tabs, "wide": wide, "wrap": wrap, "pagebreaks": pb, "recursive": rec,
-                                                                                              "encoding": enc, "relative": rel},
+        return st.builds(lambda lead, filler, depth, pos, nl, tabs, wide, wrap, pb, rec, enc, rel, sl: {"lead": lead, "filler": filler, "depth": depth, "pos": pos, "final_newline": nl, "tabs": tabs, "wide": wide, "wrap": wrap, "pagebreaks": pb, "recursive": rec,
+                                                                                              "encoding": enc, "relative": rel, "symlink": sl},
                          st.integers(0, 4), st.integers(0, 6), st.integers(1, 3), st.sampled_from(["first", "middle", "last"]), st.booleans(), st.booleans(), st.booleans(),
-                         st.sampled_from(["none", "none", "finally", "with"]), st.sampled_from([0, 0, 1, 4, 6]), st.sampled_from([0, 0, 1, 3]), st.sampled_from(["utf-8", "utf-8", "latin-1"]), st.sampled_from([False, False, True]))
+                         st.sampled_from(["none", "none", "finally", "with"]), st.sampled_from([0, 0, 1, 4, 6]), st.sampled_from([0, 0, 1, 3]), st.sampled_from(["utf-8", "utf-8", "latin-1"]), st.sampled_from([False, False, True]), st.sampled_from([False, False, False, True]))
 
     def check(self, spec, ctx):
         from rich.console import Console
@@ -288,6 +288,19 @@ class Tracebacks(Part):
         lines += body
         text = "\n".join(lines) + ("\n" if spec["final_newline"] else "")
         path = os.path.join(d, "genmod.py")
+        if spec.get("symlink") and not spec.get("relative"):
+            # the module is imported through a path that goes up from a symlinked directory ("current -> releases/v2", "current/../shared/mod.py"):
+            # collapsing "link/.." textually would name another file
+            real = os.path.join(d, "releases", "v%d" % vi)
+            os.makedirs(os.path.join(real, "sub"), exist_ok=True)
+            link = os.path.join(d, "current%d" % vi)
+            if not os.path.exists(link):
+                os.symlink(os.path.join(real, "sub"), link)
+            with open(os.path.join(d, "genmod.py"), "w", encoding="utf-8") as decoy:
+                decoy.write("# another file with the same name\n" * 40)
+            target = os.path.join(real, "genmod.py")
+            path = os.path.join(link, "..", "genmod.py")
+            ctx.cls("path-through-symlink")
         if True:
             with open(path, "w", encoding=enc) as f:
                 f.write(text)
